@@ -66,6 +66,7 @@ type govModel struct {
 	blocked       map[string]map[string]bool // "svc:<chain>:<id>" -> full ids of the sources it blocked after the previous block
 	blockedNow    map[string]map[string]bool
 	reentrantSeen bool // see afterBlockGov
+	tainted       map[string]bool // objects already reported by checkOpenProposalStatus
 }
 
 func newGovModel(s *scn) *govModel {
@@ -247,6 +248,18 @@ func (gm *govModel) observe() (map[string]string, map[string]string) {
 		q = append(q, viewTx(who, constant.RoleContractAddr, "GetRoleInfoById", pb.String(a)))
 		keys = append(keys, "role:"+a)
 	}
+	if s.cfg.AuditOps {
+		for i := 0; i < 3; i++ {
+			a := s.auditNode(i).Addr.String()
+			q = append(q, viewTx(who, constant.NodeManagerContractAddr, "GetNode", pb.String(a)))
+			keys = append(keys, "node:"+a)
+		}
+		for i := 0; i < 2; i++ {
+			a := s.auditAdmin(i).Addr.String()
+			q = append(q, viewTx(who, constant.RoleContractAddr, "GetRoleInfoById", pb.String(a)))
+			keys = append(keys, "role:"+a)
+		}
+	}
 	rcs := r.viewCall(q...)
 	st, raw := map[string]string{}, map[string]string{}
 	gm.blockedNow = map[string]map[string]bool{}
@@ -320,6 +333,9 @@ func afterBlockGov(s *scn, h uint64, txs []*pb.BxhTransaction, metas []*txMeta, 
 			govTxInBlock = true
 			if ok && mt.target != "" {
 				touched[mt.target] = true
+				if s.isAuditObject(mt.target) {
+					touched["audit*"] = true // a node and the audit administrator bound to it move together
+				}
 			}
 			if ok && mt.kind != "gov" {
 				touched["*"] = true // setup and arbitrary direct calls: no claim about which object they touch
@@ -329,6 +345,9 @@ func afterBlockGov(s *scn, h uint64, txs []*pb.BxhTransaction, metas []*txMeta, 
 			if ok {
 				if p, _ := gm.proposal(mt.target); p != nil {
 					touched[p.ObjId] = true
+					if s.isAuditObject(p.ObjId) {
+						touched["audit*"] = true
+					}
 				}
 			}
 		}
@@ -338,6 +357,9 @@ func afterBlockGov(s *scn, h uint64, txs []*pb.BxhTransaction, metas []*txMeta, 
 	for _, id := range gm.open {
 		if pv, _ := gm.proposal(id); pv != nil && pv.Status != "proposed" && pv.Status != "pause" {
 			touched[pv.ObjId] = true
+			if s.isAuditObject(pv.ObjId) {
+				touched["audit*"] = true
+			}
 			if c, ok := s.ruleProposalChain[id]; ok {
 				touched[c] = true
 			}
@@ -362,7 +384,7 @@ func afterBlockGov(s *scn, h uint64, txs []*pb.BxhTransaction, metas []*txMeta, 
 		if old != curSt[k] {
 			s.res.Count("probe_status_change")
 			s.res.State("status", strings.Split(k, ":")[0], old, curSt[k])
-			if !touched[id] && !touched[chainID] && !touched["*"] {
+			if !touched[id] && !touched[chainID] && !touched["*"] && !(touched["audit*"] && s.isAuditObject(id)) {
 				s.vio("C16", "status-change-without-cause", strings.Split(k, ":")[0]+"/"+old+"->"+curSt[k], "block %d: status of %s changed %s -> %s although the block contains no successful operation on it, no concluding vote on it and no operation on its appchain", h, k, old, curSt[k])
 			}
 		}
@@ -585,6 +607,7 @@ func afterBlockGov(s *scn, h uint64, txs []*pb.BxhTransaction, metas []*txMeta, 
 		}
 	}
 	gm.open = stillOpen
+	gm.checkOpenProposalStatus(h, curSt, touched)
 	// finality: concluded proposals never change again
 	var ids []string
 	for id, mp := range gm.proposals {
